@@ -99,7 +99,7 @@ Proof. vm_compute. reflexivity. Qed.
    method below 0x1000 and every class, From<u16> for every 16-bit value (it never panics: its unwraps are unreachable),
    MessageMethod::try_from accepts exactly 0..0xFFF, MessageClass::try_from exactly 0..3 and as_u16 inverts it; padding(n)
    for every n *)
-From Rustun Require Import Base.GRes Generated.Code Proofs.CodeAgreeCodec.
+From Rustun Require Import Base.GRes Generated.Code Proofs.CodeAgreeCodec Proofs.CodeAgreePad.
 Theorem C02_code_as_u16 : forall m c, m < 4096 -> c < 4 -> gen_MessageType_as_u16 (mt m c) = as_u16 m c.
 Proof. exact CodeAgreeCodec.gen_as_u16_agrees. Qed.
 Theorem C02_code_from_u16 : forall v, v < 65536 -> gen_MessageType_from_u16 v = GOk (mt (fst (of_u16 v)) (snd (of_u16 v))).
@@ -110,7 +110,7 @@ Theorem C02_code_class_range : forall v, v < 256 ->
   match gen_MessageClass_try_from v with Some c => v < 4 /\ gen_MessageClass_as_u16 c = v | None => 4 <= v end.
 Proof. exact CodeAgreeCodec.gen_class_try_from_agrees. Qed.
 Theorem C02_code_padding : forall n, gen_padding n = GOk (pad n).
-Proof. exact CodeAgreeCodec.gen_padding_agrees. Qed.
+Proof. exact CodeAgreePad.gen_padding_agrees. Qed.
 Print Assumptions C02_code_as_u16.
 Print Assumptions C02_code_from_u16.
 Print Assumptions C02_code_method_range.
